@@ -58,7 +58,12 @@ def make_result(rng, cross=None, which=None, kind=None, backend="numba"):
         if which == "single":
             L = rng.choice([64, 100, N, N // 3])
             f0 = rng.uniform(2, L / 2 - 2) * fs / L
-            r = an.compute_single_bin(f0, L=L)
+            if rng.random() < 0.5:
+                r = an.compute_single_bin(f0, L=L)
+            else:
+                # request by resolution; fs/fres is generally not an integer, so L is rounded
+                fres = fs / (L + rng.choice([0.0, 0.3, -0.4, 0.49]))
+                r = an.compute_single_bin(f0, fres=fres)
         else:
             r = an.compute()
     return r, an, dict(cross=cross, which=which, kind=kind, N=N, fs=fs, order=order, scheduler=kw["scheduler"], win=win, x=x, y=y, kw=kw)
